@@ -382,6 +382,9 @@ def _build(spec):
                 meta['hetero_col'] = (d, n_ids)
                 break
             d += lf['n_dim']
+        # continuous dimensions of models with covariate parts (samples are drawn individual by individual there)
+        meta['cont_cols'] = [c for c, sp in enumerate(special) if sp is None] if popgen.has(pop, 'cov') and \
+            not popgen.has(pop, 'hetero') else []
         return call, (noise if keep else None), meta
 
     if entry in ('pred', 'prior', 'post', 'pam'):
@@ -806,6 +809,17 @@ def check(case):
                 case.true(not shared, 'starting points of seed %d and of seed %d share rows %r (row of the first, row of the '
                           'second): %r' % (s0, s0 + 1, shared[:3], a[shared[0][0]].tolist()[:4] if shared else None),
                           kind='identical')
+
+    # ---- a large population in one call: under a continuous distribution no two individuals receive the very same value
+    # (streams that are re-seeded per individual from a small pool of integers collide once there are thousands)
+    if ran and entry == 'pop' and meta.get('cont_cols'):
+        with case.clause('large_population:' + entry):
+            big = np.asarray(call(seeds['A'], 8000), dtype=float)
+            case.equal(big.shape[0], 8000, 'number of sampled individuals', kind='shape')
+            for c in meta['cont_cols']:
+                n_distinct = int(np.unique(big[:, c]).size)
+                case.true(n_distinct == 8000, 'dimension %d: %d of 8000 individuals sampled in one call share their value '
+                          'with another individual (continuous distribution)' % (c, 8000 - n_distinct), kind='identical')
 
     # ---- calls without a seed: successive calls draw on, they do not replay one another; the caller's own draws from
     # the global generator afterwards are not the numbers the call has just used
